@@ -63,43 +63,34 @@ def parseOp (toks : List String) : Option Op :=
   | ["list"] => some .list
   | _ => none
 
-def parseListing (s : String) : Option (List (Nat × Nat)) :=
+def parseListing (s : String) : Option (List (Nat × Nat × Nat)) :=
   if s == "-" then some [] else
   (s.splitOn ",").mapM fun item =>
     match item.splitOn "=" with
-    | [k, a] => do let k ← parseTagged 's' k; let a ← parseHex a; pure (k, a)
+    | [k, a] => do let k ← parseTagged 's' k; let a ← parseHex a; pure (k, a, 0)
     | _ => none
 
-/-- what the implementation's answer means for the abstract pool -/
-def event (g : PoolSpec.Geo) (plen : Nat) (op : Op) (impl : String) : PoolSpec.Ev :=
-  let toks := splitTokens impl
-  -- a request naming any address inside a unit refers to that unit (getIndexByPrefix rounds down)
-  let unit := fun (x : Nat) => if g.step = 0 ∨ x < g.lo then x else g.lo + (x - g.lo) / g.step * g.step
-  match op, toks with
-  | .alloc k, ["ok", a] => match parseAddrLen a with
-      | some (x, _) => .got k x
-      | none => .nop
-  | .alloc _, ["exhausted"] => .exhausted
-  | .allocSpecific k x _, ["ok"] => .got k (unit x)
-  | .release k, ["ok"] => .released k
-  | .release k, ["notfound"] => .notHeld k
-  | .releasePrefix x _, ["ok"] => .releasedVal (unit x)
-  | .lookup k, ["none"] => .looked k none
-  | .lookup k, [a] => match parseAddrLen a with
-      | some (x, _) => .looked k (some x)
-      | none => .nop
-  | .lookupByPrefix x l, ["none"] => if l = plen then .owner (unit x) none else .nop
-  | .lookupByPrefix x l, [k] => match parseTagged 's' k with
-      | some k => if l = plen then .owner (unit x) (some k) else .nop
-      | none => .nop
-  | .stats, [a, t] => match a.toNat?, t.toNat? with
-      | some a, some t => .stats a t
-      | _, _ => .nop
-  | .setAllocation k x _, ["ok"] => .forced k (unit x)
-  | .list, [l] => match parseListing l with
-      | some l => .listing l
-      | none => .nop
-  | _, _ => .nop
+/-- the implementation's answer as a typed observation (none = not understood: no event) -/
+def parseObs (op : Op) (impl : String) : Option Obs :=
+  match op, splitTokens impl with
+  | .alloc _, ["ok", a] => (parseAddrLen a).map fun (x, _) => .okAddr x
+  | .lookup _, ["none"] => some .none
+  | .lookup _, [a] => (parseAddrLen a).map fun (x, _) => .okAddr x
+  | .lookupByPrefix _ _, ["none"] => some .none
+  | .lookupByPrefix _ _, [k] => (parseTagged 's' k).map .sub
+  | .stats, [a, t] => do let a ← a.toNat?; let t ← t.toNat?; pure (.stats a t)
+  | .list, [l] => (parseListing l).map .list
+  | _, ["ok"] => some .ok
+  | _, ["exhausted"] => some .exhausted
+  | _, ["notfound"] => some .notfound
+  | _, ["conflict"] => some .conflict
+  | _, ["range"] => some .range
+  | _, _ => none
+
+def event (c : Cfg) (op : Op) (impl : String) : PoolSpec.Ev :=
+  match parseObs op impl with
+  | some o => toEvent c op o
+  | none => .nop
 
 def step (st : St) (toks : List String) (impl : String) : St × LineResult :=
   match toks with
@@ -109,7 +100,7 @@ def step (st : St) (toks : List String) (impl : String) : St × LineResult :=
       let c : Cfg := { famBits := fam, poolPrefix := pp, plen := pl, base := base }
       if c.valid then
         ({ model := some (init c), mon := [],
-           geo := { lo := base, step := c.step, units := c.totalBig, totalReported := c.total } },
+           geo := geoOf c },
          { modelObs := "ok" })
       else ({}, { modelObs := "invalid" })
     | _, _, _, _ => (st, { modelObs := "badop" })
@@ -120,7 +111,7 @@ def step (st : St) (toks : List String) (impl : String) : St × LineResult :=
       let shown := match op with
         | .lookup _ => showLookup m.cfg o
         | _ => showObs m.cfg o
-      let (mon', vs) := PoolSpec.check st.geo st.mon (event st.geo m.cfg.plen op impl)
+      let (mon', vs) := PoolSpec.check st.geo st.mon (event m.cfg op impl)
       -- the only clause under which a verdict is attributed to a recorded finding
       let clause := fun (v : String) =>
         if (v == "exhaustion" || v == "total") && decide (m.cfg.plen - m.cfg.poolPrefix ≥ 64)
